@@ -261,7 +261,14 @@ def run_gnupg_hist(spec, rec, lib):
         rec.inconclusive_because("GnuPG stand-in not picked up")
         return
     rng = random.Random(spec["seed"])
-    with gnupg.GpgHome() as home:
+    try:
+        home_cm = gnupg.GpgHome()
+        home_cm.__enter__()
+    except Exception as e:  # noqa: BLE001 - environmental: skip the sub-workload
+        rec.count("gnupg_unavailable")
+        rec.case("gnupg-unavailable", nontrivial=False)
+        return
+    try:
         fprs = list(gnupg.SHIPPED)
         for i in range(spec["count"]):
             case = gen_history(rng, 8)
@@ -269,6 +276,8 @@ def run_gnupg_hist(spec, rec, lib):
                 case["ops"][3] = "gpg_file"
             run_history(case, rec, lib, spec["scratch"], real_gpg_fpr=fprs[i % 2])
             rec.count("gnupg_histories")
+    finally:
+        home_cm.__exit__(None, None, None)
     rec.sample({"gnupg_history": "sign_root_metadata_via_gpg through real GnuPG inside write/load/sign cycles"})
 
 
